@@ -2,6 +2,6 @@ SPECIFICATION Spec
 CONSTANTS
   Stale = FALSE
   MaxLinks = 4
-  Flavours = {"var", "name", "lit", "neg", "negsp", "fn", "xf"}
+  Flavours = {"var", "name", "lit", "neg", "negsp", "fn", "xf", "wild", "wildn"}
 INVARIANTS Emit WhitespaceInsensitive PrecedenceHolds
 CHECK_DEADLOCK FALSE
